@@ -271,9 +271,15 @@ def _apply_raw(ctx, t, d, k, args, a, env):
             raise Unbound(name)
         if name in env.funcs:
             return env.funcs[name](*a)
-        v = _std_func(name, a, None, None)
+        v = _std_func(name, a, None, None) if not getattr(env, "no_std", False) else None
         if v is None:
-            raise Unbound(name)
+            df = getattr(env, "default_func", None)
+            if df is not None:
+                rs = _zc.Z3_get_sort(ctx, t)
+                rbits = _zc.Z3_get_bv_sort_size(ctx, rs) if _zc.Z3_get_sort_kind(ctx, rs) == z3.Z3_BV_SORT else 0
+                v = df(name, tuple(a), rbits)
+            if v is None:
+                raise Unbound(name)
         return v
     if k == Z3_OP_EQ:
         return a[0] == a[1]
